@@ -114,7 +114,11 @@ impl SampleQueueSender {
             return Err(());
         }
 
+        #[cfg(rustrtc_verif)]
+        crate::verif::sched("src_lock");
         let _push_guard = self.push_lock.lock();
+        #[cfg(rustrtc_verif)]
+        let _verif_before_push_unlock = VerifSchedOnDrop("src_unlock");
 
         let sample = match self.queue.push(sample) {
             Ok(()) => {
@@ -151,7 +155,11 @@ impl SampleQueueSender {
             return Err(sample);
         }
 
+        #[cfg(rustrtc_verif)]
+        crate::verif::sched("src_lock");
         let _push_guard = self.push_lock.lock();
+        #[cfg(rustrtc_verif)]
+        let _verif_before_push_unlock = VerifSchedOnDrop("src_unlock");
         match self.queue.push(sample) {
             Ok(()) => {
                 #[cfg(rustrtc_verif)]
@@ -262,6 +270,11 @@ impl VerifChannelProbe {
 
 #[cfg(rustrtc_verif)]
 impl SampleQueueSender {
+    /// Is the producer lock held right now? (the sender itself must still be alive to ask)
+    pub fn verif_push_locked(&self) -> bool {
+        self.push_lock.is_locked()
+    }
+
     pub fn verif_probe(&self) -> VerifChannelProbe {
         VerifChannelProbe {
             queue: self.queue.clone(),
